@@ -417,6 +417,12 @@ namespace c14
             e["inter"] = interior;
             e["row"] = row;
             e["signs"] = signs;
+            {
+                std::vector<std::string> sg;
+                for (char ch : signs)
+                    sg.push_back(std::string(1, ch));
+                e["sg"] = sg;
+            }
             e["rev"] = false;
             e["rep"] = sc.U(rep);
             e["repRev"] = sc.U(repRev);
